@@ -27,7 +27,12 @@ as DESIGN section 3 C07 says):
 
 Widths below struct_min(description) are only executed (crash = violation).
 
-Measured on this machine: see describe()/final report.
+Bounds and cost (measured; the machine was shared, so CPU seconds are the reliable number):
+quick    20.8 k tables, 266.6 k renders, ~2.1 k distinct outcomes, ~620 CPU-s (~40 s wall on 16 idle cores);
+thorough 242 k tables, 3.05 M renders, ~5.4 k distinct outcomes, ~9.3 k CPU-s (~10 min wall on 16 idle cores;
+         53 min measured at load average ~100).
+DESIGN planned "<=4 columns, <=3+2 deviations" at 0.8 ms per render; a render of a 3x3 table with nested
+cells costs 9 ms, so the deviation bound is per (shape, filling, default overflow) unit -- see _units().
 """
 import io
 import itertools
@@ -40,7 +45,7 @@ from ..width import cw, sw
 ID = "C07"
 LEVEL = "exploration"
 ENGINE = "E1"
-CAP_S = {"quick": 600, "thorough": 7200}
+CAP_S = {"quick": 600, "thorough": 2400}
 TECHNIQUE = ("bounded-exhaustive enumeration of table descriptions (shape x cell filling x deviation-bounded "
              "option vectors x every width from the structural minimum) on the real Table, judged by an "
              "independent rectangle / column-span / row-block reference")
@@ -358,6 +363,8 @@ def judge(desc, W, lines):
             exp_judged = True
             if width != want:
                 key = "expand/narrower-than-available" if width < want else "expand/wider-than-available"
+                if not desc["rows"] and not _topt(desc, "show_header") and not _topt(desc, "show_footer"):
+                    key += "/table-has-no-cells"      # degenerate: only the top and bottom border exist
                 # a table min_width can only explain a table that stays too narrow,
                 # a column min_width only one that gets too wide: separate finding keys
                 if width < want and _topt(desc, "min_width") is not None:
